@@ -201,6 +201,26 @@ fn inner_families(want: Flavor) -> Vec<(Family, u32)> {
 
 fn gen_children(c: &mut Cur, p: &Profile, fam: Family, n: usize, depth: usize, nests_left: &mut usize) -> Vec<ChildSpec> {
     let flavor = fam.child_flavor();
+    // big containers: independent random scripts make "all of them fail" or
+    // "the first 256 stay pending" astronomically unlikely, so most big cases
+    // use one script for all children plus a few exceptions
+    if n > 24 && c.coin(170) {
+        let mut t = gen_script(c, p, flavor, 24);
+        if flavor == Flavor::R {
+            // make the uniform outcome a coin flip rather than p_err
+            let fail = c.coin(128);
+            t.script.retain(|s| !matches!(s, Step::Yield(false)));
+            if fail {
+                t.script.push(Step::Yield(false));
+            }
+        }
+        let mut v: Vec<ChildSpec> = (0..n).map(|_| ChildSpec::Leaf(t.clone())).collect();
+        for _ in 0..c.choice(4) {
+            let at = c.choice(n);
+            v[at] = ChildSpec::Leaf(gen_script(c, p, flavor, 24));
+        }
+        return v;
+    }
     (0..n)
         .map(|_| {
             if depth == 0 && *nests_left > 0 && n <= 12 && c.coin(p.p_nest) {
